@@ -8,7 +8,8 @@ def run(ctx):
     res = simcommon.run(ctx, "dagrun")
     findings, diffs = simcommon.findings_for(res, "C03", None)
     extra = {}
-    for fl in ("split", "splitdag"):
+    for fl in ("split", "splitdag", "dagodd"):
+        # dagodd: long histories of 2..3 validators re-fed to a Badger store whose ODD cache size is below the number of events per creator
         # directed split-vote schedules: the round-received rule oracle (V C03 round-received-*) after every action of
         # every node, and (splitdag) the same DAGs re-fed under orders / cuts / stores
         r2 = simcommon.run(ctx, fl)
